@@ -358,7 +358,7 @@ func (g *Gen) needStr() {
 	g.sortSet["Str"] = true
 	g.sortDecls = append(g.sortDecls, "(declare-sort Str 0)")
 	g.decls = append(g.decls, "(declare-fun slen (Str) Int)", "(declare-fun sat (Str Int) Int)")
-	g.global("(forall ((s Str)) (! (and (>= (slen s) 0) (<= (slen s) 9223372036854775807)) :pattern ((slen s))))")
+	g.global("(forall ((s Str)) (! (and (>= (slen s) 0) (<= (slen s) 72057594037927936)) :pattern ((slen s))))")
 	g.global("(forall ((s Str) (i Int)) (! (and (<= 0 (sat s i)) (<= (sat s i) 255)) :pattern ((sat s i))))")
 }
 
@@ -953,7 +953,15 @@ func (g *Gen) typeFacts(term string, t types.Type) string {
 	}
 	switch u := t.Underlying().(type) {
 	case *types.Slice:
-		return fmtf("(and (<= 0 (s_off %s)) (<= 0 (s_len %s)) (<= (s_len %s) (s_cap %s)) (<= (s_cap %s) 9223372036854775807) (>= (s_arr %s) 0) (=> (= (s_arr %s) 0) (= (s_cap %s) 0)))", term, term, term, term, term, term, term, term)
+		// no object exceeds 2^56 bytes (assumption: far above any 64-bit platform's address
+		// space); slices of zero-size elements are only bounded by int
+		bound := "9223372036854775807"
+		if sz := types.SizesFor("gc", "amd64"); sz != nil {
+			if _, isTP := u.Elem().(*types.TypeParam); !isTP && sz.Sizeof(u.Elem()) > 0 {
+				bound = "72057594037927936"
+			}
+		}
+		return fmtf("(and (<= 0 (s_off %s)) (<= (s_off %s) %s) (<= 0 (s_len %s)) (<= (s_len %s) (s_cap %s)) (<= (s_cap %s) %s) (>= (s_arr %s) 0) (=> (= (s_arr %s) 0) (= (s_cap %s) 0)))", term, term, bound, term, term, term, term, bound, term, term, term)
 	case *types.Pointer, *types.Map, *types.Chan, *types.Signature:
 		return fmtf("(>= %s 0)", term)
 	case *types.Interface:
